@@ -135,16 +135,23 @@ OPS = ["Box", "Extrude", "Revolve", "Wedge", "Shell"]
 LOFTED = ["ExtrudedShape", "RevolvedShape", "LoftedShape"]
 STACKS = ["ExtrudedStack", "RevolvedStack", "TransformedStack"]
 # kinds that may be turned and moved as a whole after they were built (`case["post"]`)
+# kinds that are also placed far from the origin with a thin feature
+FAR = ["Cylinder", "SemiCylinder", "Frustum", "ExtrudedRing", "Box", "Extrude", "Shell", "Chain", "Hemisphere", "Elbow"]
+# round kinds that may get a touching plain neighbour
+TOUCHED = ["Cylinder", "SemiCylinder", "Frustum", "ExtrudedRing"]
 POSTED = ["Cylinder", "SemiCylinder", "Frustum", "Elbow", "ExtrudedRing", "RevolvedRing", "Hemisphere", "Revolve", "Extrude", "Chain"] + LOFTED + STACKS
 
 
-def gen_frame(rng: random.Random) -> dict:
+def gen_frame(rng: random.Random, far: bool = False) -> dict:
     while True:
         q = [rng.randint(-4, 4) for _ in range(4)]
         if any(q):
             break
     if rng.random() < 0.1:
         q = [1, 0, 0, 0]
+    if far:
+        # far from the origin in every coordinate (a model in millimetres, a part of a big assembly)
+        return {"q": q, "t": [str(rng.choice([-1, 1]) * rng.randint(200, 800)) for _ in range(3)], "s": "1", "far": 1}
     return {
         "q": q,
         "t": [str(Fraction(rng.randint(-24, 24), 8)) for _ in range(3)],
@@ -180,6 +187,8 @@ def gen_chop(rng: random.Random) -> dict:
 def gen_sketch(rng: random.Random, name: Optional[str] = None, square: Optional[bool] = None) -> dict:
     name = name or rng.choice(SKETCHES)
     p: Dict[str, Any] = {"sketch": name, "phi": rq(rng, 0, 6.25, 8)}
+    if name in ("OneCoreDisk", "QuarterDisk", "HalfDisk", "FourCoreDisk", "WrappedDisk", "Oval") and rng.random() < 0.4:
+        p["nlen"] = rng.choice(["1/4", "2/3", "5/2", "7"])
     if name in ("OneCoreDisk", "QuarterDisk", "HalfDisk", "FourCoreDisk"):
         p["R"] = rq(rng, 0.4, 2)
     elif name == "WrappedDisk":
@@ -255,6 +264,8 @@ def gen_round(rng: random.Random, kind: str) -> dict:
         p.update(face=gen_quad(rng, rq(rng, -1, 1), rq(rng, 0.5, 2)), n=rng.choice([3, 4, 5, 6, 7, 8, 8, 12]), reuse=int(rng.random() < 0.5))
     elif kind == "Hemisphere":
         p.update(R=rq(rng, 0.3, 2))
+    if kind in ("Hemisphere", "Elbow") and rng.random() < 0.6:
+        p["nlen"] = rng.choice(["1/4", "2/3", "5/2", "7"])  # the normal is a direction: any length is valid
     return p
 
 
@@ -322,10 +333,18 @@ def _usable(kinds_links) -> bool:
     return True
 
 
-def gen_case(rng: random.Random, kind: str) -> dict:
+THIN = "1/1024"  # a thin feature: 1e-3 of the unit, less than 1e-5 of a far placement's coordinates
+
+
+def gen_case(rng: random.Random, kind: str, far: Optional[bool] = None) -> dict:
     c: Dict[str, Any] = {"kind": kind}
-    c.update(gen_frame(rng))
+    if far is None:
+        far = kind in FAR and rng.random() < 0.12
+    c.update(gen_frame(rng, far))
     c["chop"] = gen_chop(rng)
+    if far:
+        # thin features cannot be chopped by size: counts only
+        c["chop"] = {"mode": "count", "calls": [{"count": rng.randint(1, 4)} for _ in range(3)]}
     if kind in ROUND:
         c["p"] = gen_round(rng, kind)
     elif kind in JOINTS:
@@ -374,9 +393,44 @@ def gen_case(rng: random.Random, kind: str) -> dict:
         c["p"] = gen_chain(rng)
     else:
         raise ValueError(kind)
-    if kind in POSTED and rng.random() < 0.4:
+    if far:
+        thin_features(rng, c)
+    if kind in TOUCHED and rng.random() < 0.3:
+        c["touch"] = gen_touch(rng)
+    if kind in POSTED and not far and rng.random() < 0.4:
         c["post"] = gen_post(rng)
     return c
+
+
+def thin_features(rng: random.Random, c: dict) -> None:
+    """a boundary-layer ring, a thin disc, a thin plate: one dimension of the shape is `THIN`"""
+    k, p = c["kind"], c["p"]
+    if k == "ExtrudedRing":
+        if rng.random() < 0.5:
+            p["r"] = str(Fraction(p["R"]) - Fraction(THIN))
+        else:
+            p["L"] = THIN
+    elif k in ("Cylinder", "SemiCylinder", "Frustum"):
+        p["L"] = THIN
+    elif k == "Box":
+        p["d"][rng.randrange(3)] = THIN
+    elif k == "Extrude":
+        p.pop("vec", None)
+        p["amount"] = THIN
+    elif k == "Shell":
+        p["amount"] = THIN
+    elif k == "Chain":
+        for link in p["links"]:
+            if "T" in link:
+                link["T"] = THIN
+            elif "L" in link:
+                link["L"] = THIN
+
+
+def gen_touch(rng: random.Random) -> dict:
+    """a plain entity with straight edges that touches the round shape along its curved outer edges, added to the
+    mesh before (`first`) or after it"""
+    return {"how": rng.choice(["shell", "top"]), "first": int(rng.random() < 0.6), "amount": rq(rng, 0.1, 0.5)}
 
 
 # ----------------------------------------------------------------------------- building the real thing
@@ -398,7 +452,7 @@ def make_sketch(fr: Frame, p: dict):
     from classy_blocks.construct.flat.sketches.grid import Grid
 
     name = p["sketch"]
-    nrm = fr.V(0, 0, 1)
+    nrm = fr.V(0, 0, 1) * fl(p.get("nlen", "1"))
     c = fr.P(0, 0, 0)
     if name == "Grid":
         g = Grid([0, 0, 0], [fl(p["w"]), fl(p["h"]), 0], p["n"], p["m"])
@@ -532,7 +586,7 @@ def build(case: dict) -> Built:
         s = cb.Frustum(fr.P(0, 0, 0), fr.P(0, 0, fl(p["L"])), rp(p["R"], p["phi"]), fr.L(p["R2"]), fr.L(p["Rmid"]) if "Rmid" in p else None)
     elif kind == "Elbow":
         sg = -1.0 if p.get("neg") else 1.0
-        s = cb.Elbow(fr.P(0, 0, 0), rp(p["R"], p["phi"]), fr.V(0, 0, 1), sg * fl(p["sweep"]), fr.P(fl(p["D"]), 0, 0), sg * fr.V(0, 1, 0), fr.L(p["R2"]))
+        s = cb.Elbow(fr.P(0, 0, 0), rp(p["R"], p["phi"]), fr.V(0, 0, 1) * fl(p.get("nlen", "1")), sg * fl(p["sweep"]), fr.P(fl(p["D"]), 0, 0), sg * fr.V(0, 1, 0), fr.L(p["R2"]))
     elif kind == "ExtrudedRing":
         s = cb.ExtrudedRing(fr.P(0, 0, 0), fr.P(0, 0, fl(p["L"])), rp(p["R"], p["phi"]), fr.L(p["r"]), p["n"])
     elif kind == "RevolvedRing":
@@ -543,7 +597,7 @@ def build(case: dict) -> Built:
             # of its own, made of rotated copies of the cross-section
             xs.translate(fr.V(1, 0, 0) * fr.L(3))
     elif kind == "Hemisphere":
-        s = cb.Hemisphere(fr.P(0, 0, 0), rp(p["R"], p["phi"]), fr.V(0, 0, 1))
+        s = cb.Hemisphere(fr.P(0, 0, 0), rp(p["R"], p["phi"]), fr.V(0, 0, 1) * fl(p.get("nlen", "1")))
     elif kind in JOINTS:
         L, R = fl(p["L"]), fl(p["R"])
         cs, sn = math.cos(fl(p["phi"])), math.sin(fl(p["phi"]))
@@ -640,7 +694,26 @@ def build(case: dict) -> Built:
 
     b.entities = [s]
     b.shapes = [s]
+    extra = None
+    if case.get("touch"):
+        from classy_blocks.construct.shapes.shell import Shell
+
+        tch = case["touch"]
+        if tch["how"] == "shell":
+            # a layer of blocks around the wall, offset from the outer faces of the shape (straight edges)
+            extra = Shell([op.get_face("right") for op in s.shell], fr.L(tch["amount"]))
+            extra_chop = lambda: extra.chop(**dict(kws[2]))  # noqa: E731
+        else:
+            # a plain block on top of the first shell block: same four points, no curved edges
+            top = s.shell[0].top_face
+            extra = cb.Extrude(cb.Face([q.position for q in top.points]), fr.L(tch["amount"]))
+            extra_chop = lambda: extra.chop(2, **dict(kws[2]))  # noqa: E731
+        b.entities = [extra, s] if tch["first"] else [s, extra]
+        b.shapes = list(b.entities)
+        apply_post(case, extra)
     apply_post(case, s)
+    if extra is not None:
+        b.calls.append(extra_chop)
     if kind in ROUND or kind in JOINTS:
         round_calls(s)
     elif kind in LOFTED:
@@ -831,6 +904,22 @@ class C11(core.Check):
                 c = gen_case(rng, kind)
                 c["p"]["reuse"] = 1
                 cases.append(c)
+            # far from the origin with a thin feature: the blocking does not depend on where the shape stands
+            for kind in ("ExtrudedRing", "Cylinder", "Box"):
+                cases.append(gen_case(rng, kind, far=True))
+            c = gen_case(rng, "Chain", far=True)
+            c["p"] = {"base": "Cylinder", "bp": gen_round(rng, "Cylinder"), "links": [{"op": "ExtrudedRing.expand", "src": 0, "start": 0, "T": THIN}]}
+            c.pop("post", None)
+            cases.append(c)
+            # a plain neighbour with straight edges on the curved outer edges, added to the mesh first
+            for kind, how in (("Cylinder", "shell"), ("Frustum", "top"), ("ExtrudedRing", "shell"), ("SemiCylinder", "top")):
+                c = gen_case(rng, kind, far=False)
+                c["touch"] = {"how": how, "first": 1, "amount": rq(rng, 0.1, 0.5)}
+                cases.append(c)
+            # a hemisphere whose normal is not a unit vector
+            c = gen_case(rng, "Hemisphere", far=False)
+            c["p"]["nlen"] = rng.choice(["1/4", "5/2", "7"])
+            cases.append(c)
             # tapered stacks of sketches whose centre is not a point of their first face
             for sk in ("Oval", "Grid", "Annulus", "HalfDisk"):
                 c = gen_case(rng, "TransformedStack")
@@ -977,6 +1066,8 @@ class C11(core.Check):
     def _table_name(case: dict) -> Optional[str]:
         """name of the probe entry of CBV.Gen.c11Shapes that has the same topology, if there is one"""
         k, p = case["kind"], case.get("p", {})
+        if case.get("touch"):
+            return None  # another entity in the mesh: other vertex numbers
         if k in ("Cylinder", "SemiCylinder", "Frustum", "Elbow", "Hemisphere", "LJoint", "TJoint"):
             return k
         if k in ("ExtrudedRing", "RevolvedRing") and p["n"] in TABLE_RINGS:
@@ -1012,7 +1103,7 @@ class C11(core.Check):
                 reqs.append(f"c11.ring {p['n']} {p['k']}")
             else:
                 reqs.append(f"c11.loft {p['sketch']} {p['k']}")
-        elif k == "ExtrudedRing":
+        elif k == "ExtrudedRing" and not case.get("touch"):
             reqs.append(f"c11.ring {p['n']} 1")
         name = self._table_name(case)
         if name:
@@ -1042,7 +1133,7 @@ class C11(core.Check):
         if fam != want:
             return f"wire families: harness {want}, model {fam}"
         k, p = case["kind"], case["p"]
-        if k in LOFTED or k in STACKS or k == "ExtrudedRing":
+        if k in LOFTED or k in STACKS or (k == "ExtrudedRing" and not case.get("touch")):
             a = next(it).split(" ")
             if a[0] != "[" + ",".join(map(str, flat)) + "]":
                 return f"blocking of {k}({p.get('sketch', '')}): implementation {impl['blocks']}, model {a[0]}"
@@ -1118,6 +1209,16 @@ def site_class(case: dict) -> str:
 
 def expected_counts(case: dict) -> Optional[Tuple[int, int]]:
     """(blocks, vertices) expected from the documented blocking of each class; None where not tabulated"""
+    base = expected_counts_alone(case)
+    tch = case.get("touch")
+    if base and tch:
+        nshell = {"Cylinder": 8, "Frustum": 8, "SemiCylinder": 4}.get(case["kind"]) or case["p"]["n"]
+        nrim = {"Cylinder": 8, "Frustum": 8, "SemiCylinder": 5}.get(case["kind"]) or case["p"]["n"]
+        return (base[0] + nshell, base[1] + 2 * nrim) if tch["how"] == "shell" else (base[0] + 1, base[1] + 4)
+    return base
+
+
+def expected_counts_alone(case: dict) -> Optional[Tuple[int, int]]:
     k, p = case["kind"], case["p"]
     if k in ("Cylinder", "Frustum", "Elbow"):
         return 12, 34
